@@ -432,6 +432,22 @@ def _int_values(rng, cls, shape):
     return rng.integers(lo, hi + 1, size=shape)
 
 
+def _provably_nonneg(case, n):
+    """nutils demands an integer exponent whose range is non-negative by interval inference at construction: true whenever the
+    exponent is built from non-negative leaves by operations that preserve non-negativity (or is an absolute value); an exponent
+    that is non-negative only by cancellation (e.g. [-1,-3] - [-2,-4]) is refused by design and not generated"""
+    if n.opname is None:
+        return n.vals is not None and (n.vals.size == 0 or n.vals.min() >= 0)
+    args = [case.nodes[a] for a in n.spec['args'] if a in case.nodes]
+    if n.opname == 'absolute':
+        return True
+    if n.opname in ('add', 'multiply', 'stack', 'concatenate', 'broadcast_to', 'positive', 'sum'):
+        return all(_provably_nonneg(case, a) for a in args)
+    if n.opname in ('take', 'getitem'):
+        return bool(args) and _provably_nonneg(case, args[0])
+    return False
+
+
 def generate_intrange(envname, rng, res, combiner=None, consumer=None):
     case = Case(envname, res)
     g = Gen(case, rng)
@@ -551,7 +567,7 @@ def generate_intrange(envname, rng, res, combiner=None, consumer=None):
         node = g.try_op(consumer, form(), swap([x.id, thresholds().id]), {})
     elif consumer == 'sign':
         node = g.try_op('sign', 'ufunc', [x.id], {})
-    elif consumer == 'power_exponent' and lo >= 0 and hi <= 4 and x.pointindep:
+    elif consumer == 'power_exponent' and lo >= 0 and hi <= 4 and x.pointindep and _provably_nonneg(case, x):
         base = const(_int_values(rng, 'mixed', g.compatible_shape(x.shape)))
         node = g.try_op('power', form(), [base.id, x.id], {})
     elif consumer in ('take_index', 'getitem_index') and x.pointindep and len(x.shape) <= 2:
